@@ -1,6 +1,7 @@
 """C13 - no reply can make a query reserve unbounded memory."""
 from valve_common import *
 from quake_common import quake_specs, quake_case
+from u2_common import u2_specs, u2_case
 
 ID = "C13"
 PROPS_FILE = "C13"
@@ -56,6 +57,17 @@ def gen_cases(tier, rng):
             kind, evs = mutate([q["dg"]], r)
             cases.append({"id": "qmut/%d/%d" % (q["seed"], j), "hex": quake_case(27960, q["ver"], None, evs),
                           "meta": {"stream": "quake-mutations", "retries": 0, "n": len(evs)}})
+    for u in u2_specs([rng.next() >> 1 for _ in range(120 if tier == "quick" else 3000)], (1, 2)):
+        info = u["events"][0]
+        # the announced player / max player counts are the last 8 bytes of the info reply
+        for v in (b"\xff\xff\xff\xff\xff\xff\xff\xff", b"\x40\x42\x0f\x00\x40\x42\x0f\x00", b"\xff\xff\xff\x7f\x00\x00\x00\x00", b"\x33\x00\x00\x00\xff\xff\xff\xff"):
+            evs = [info[:-8] + v] + u["events"][1:]
+            cases.append({"id": "ucnt/%d/%s" % (u["seed"], v.hex()), "hex": u2_case(7778, None, None, evs),
+                          "meta": {"stream": "unreal2-counts", "retries": 0, "n": len(evs)}})
+        for j in range(4):
+            kind, evs = mutate(u["events"], r)
+            cases.append({"id": "umut/%d/%d" % (u["seed"], j), "hex": u2_case(7778, None, None, evs),
+                          "meta": {"stream": "unreal2-mutations", "retries": 0, "n": len(evs)}})
     return cases
 
 
@@ -90,4 +102,4 @@ def extra_runs(tier, rng, ctx):
         a = parse_alloc(i.split("\t#", 1)[1]) if i and "\t#" in i else None
         if a:
             worst = max(worst, a[0])
-    return [], {"largest_single_allocation_observed": worst, "covered_entry_points": ["valve::query", "quake one/two/three"]}
+    return [], {"largest_single_allocation_observed": worst, "covered_entry_points": ["valve::query", "quake one/two/three", "unreal2::query"]}
